@@ -5,7 +5,7 @@ import ast
 
 from ..context import need
 from ..loader import AnalysisError
-from .. import graph
+from .. import graph, consts
 from ..roles import node_calls
 from ..dataflow import field_name
 from ..resolve import walk_scope
@@ -485,6 +485,36 @@ def r7_keys(ctx):
                 (_, lo, hi, _, _) = next(iter(res.values()))
                 rep.ob('C07.R7', ctx.loc(f, lp.ast), 'yields per example block', (lo, hi) == (1, 1),
                        'exactly one example is yielded per block' if (lo, hi) == (1, 1) else 'between %d and %d examples per block' % (lo, hi), anchor=q)
+    # (a3) which blocks are examples: decided on the label by PREFIX.  The splitter derives the label with .strip().rstrip(':'), which keeps
+    # a blank written before the colon (`Example :` -> 'Example ') and plural / aliased spellings it does not canonicalise: an exact
+    # comparison of the label silently drops such blocks
+    tags = {'Example', 'Doctest'}
+    label_tests = []
+    for x in walk_scope(f.node):
+        if isinstance(x, ast.Call) and isinstance(x.func, ast.Attribute) and x.func.attr == 'startswith' and isinstance(x.func.value, ast.Name) and x.args:
+            try:
+                v = consts.Folder(ctx.prog).fold(f.module, x.args[0], None, f)
+            except consts.NotConstant:
+                v = None
+            v = (v,) if isinstance(v, str) else v
+            if isinstance(v, (tuple, list, set, frozenset)) and tags <= set(v):
+                label_tests.append((x, True))
+            elif v is None and x.func.value.id in ('type', 'type_', 'tag', 'label', 'key', 'kind', 'block_type'):
+                label_tests.append((x, True))       # prefix test against a tag held in a variable
+        if isinstance(x, ast.Compare) and len(x.ops) == 1 and isinstance(x.ops[0], (ast.In, ast.Eq)) and isinstance(x.left, ast.Name):
+            try:
+                v = consts.Folder(ctx.prog).fold(f.module, x.comparators[0], None, f)
+            except consts.NotConstant:
+                v = None
+            v = (v,) if isinstance(v, str) else v
+            if isinstance(v, (tuple, list, set, frozenset)) and (tags & set(v)):
+                label_tests.append((x, False))
+    need(label_tests, 'C07.R7: how example blocks are told from the other google blocks was not recognised')
+    for (x, okk) in label_tests:
+        rep.ob('C07.R7', ctx.loc(f, x), ctx.src(x, 70), okk,
+               'example blocks are recognised by the prefix of their label' if okk else
+               'the block label is compared exactly: the splitter keeps a blank written before the colon in the label (`Example :` is labelled "Example "), so such a block is '
+               'not an example any more and its doctests are silently not collected', anchor=q)
     # (a2) the filtered list is one pass over the split blocks, in their order
     blocks_defs = [d for d in rd.defs if isinstance(d.base, ast.Call) and ctx.res.resolve_call(f, d.base)[0] == 'repo' and ctx.res.resolve_call(f, d.base)[1][0].name == 'split_google_docblocks']
     need(blocks_defs, 'C07.R7: result of split_google_docblocks not bound')
@@ -729,6 +759,7 @@ from ..selftest import fire, silent      # noqa: E402
 SA = 'xdoctest/static_analysis.py'
 CO = 'xdoctest/core.py'
 VARIANTS = [
+    fire('example-blocks-by-exact-label', 'C07.R7', ('xdoctest/core.py', "        if type.startswith(example_tags):\n", "        if type in example_tags:\n")),
     fire('subpackage-init-looked-up-under-the-root', 'C07.R6', (SA, "                        path = join(dpath, dname, '__init__.py')\n", "                        path = join(pkgpath, dname, '__init__.py')\n")),
     fire('block-label-rejects-trailing-blanks', 'C07.R9', ('xdoctest/docstr/docscrape_google.py', "') *::? *$'", "') *::?$'")),
     fire('generic-visit-with-fixed-field-list', 'C07.R8', (SA, "    # -- helpers ---\n", "    def generic_visit(self, node):\n        for field in ('body', 'orelse', 'handlers', 'finalbody'):\n            for child in getattr(node, field, None) or []:\n                self.visit(child)\n\n    # -- helpers ---\n")),
